@@ -354,6 +354,27 @@ class _Canon(ast.NodeTransformer):
             out = lex(list(n.left.elts), list(n.comparators[0].elts))
             self.steps.append('S29 ' + U(n)[:60])
             return self.visit(_relocate(out, n))
+        # S53: `x in <constant collection>` spelled with another collection type (tuple / set / frozenset / list of the same constants)
+        # -> the spelling of the reference comparison with the same left operand (membership in a collection of constants does not
+        # depend on the collection type: str / int elements, equality-based lookup in all of them)
+        if len(n.ops) == 1 and isinstance(n.ops[0], (ast.In, ast.NotIn)) and U(n) not in self.cmp:
+            def _elems(e):
+                if isinstance(e, ast.Call) and isinstance(e.func, ast.Name) and e.func.id in ('frozenset', 'set', 'tuple', 'list') and len(e.args) == 1:
+                    e = e.args[0]
+                if isinstance(e, (ast.List, ast.Tuple, ast.Set)) and all(isinstance(x, ast.Constant) and isinstance(x.value, (str, int)) for x in e.elts):
+                    return frozenset((type(x.value).__name__, x.value) for x in e.elts)
+                return None
+            mine = _elems(n.comparators[0])
+            if mine is not None:
+                for t_ in self.cmp:
+                    try:
+                        r_ = ast.parse(t_, mode='eval').body
+                    except SyntaxError:
+                        continue
+                    if isinstance(r_, ast.Compare) and len(r_.ops) == 1 and type(r_.ops[0]) is type(n.ops[0]) and U(r_.left) == U(n.left) \
+                            and _elems(r_.comparators[0]) == mine:
+                        self.steps.append('S53 %s -> %s' % (U(n)[:40], t_[:40]))
+                        return _relocate(r_, n)
         if len(n.ops) == 1 and type(n.ops[0]) in MIRROR and U(n) not in self.cmp:
             m = ast.copy_location(ast.Compare(left=n.comparators[0], ops=[MIRROR[type(n.ops[0])]()], comparators=[n.left]), n)
             if U(m) in self.cmp:
@@ -363,6 +384,13 @@ class _Canon(ast.NodeTransformer):
 
     def visit_Subscript(self, n):
         self.generic_visit(n)
+        # S54  X[:k][i] -> X[i]   for constants 0 <= i < k (same element, same IndexError when X is too short)
+        if isinstance(n.slice, ast.Constant) and isinstance(n.slice.value, int) and not isinstance(n.slice.value, bool) and n.slice.value >= 0 \
+                and isinstance(n.value, ast.Subscript) and isinstance(n.value.slice, ast.Slice) and n.value.slice.lower is None \
+                and n.value.slice.step is None and isinstance(n.value.slice.upper, ast.Constant) and isinstance(n.value.slice.upper.value, int) \
+                and n.slice.value < n.value.slice.upper.value:
+            self.steps.append('S54 ' + U(n)[:50])
+            return _relocate(ast.Subscript(value=n.value.value, slice=n.slice, ctx=n.ctx), n)
         # S46  E.partition(sep)[0] -> E.split(sep)[0]   (equal for every string and non-empty sep) when the reference spells it so
         if isinstance(n.slice, ast.Constant) and n.slice.value == 0 and isinstance(n.value, ast.Call) and isinstance(n.value.func, ast.Attribute) \
                 and n.value.func.attr == 'partition' and len(n.value.args) == 1 and not n.value.keywords:
@@ -388,6 +416,16 @@ class _Canon(ast.NodeTransformer):
 
     def visit_Call(self, n):
         self.generic_visit(n)
+        # S43b: re.compile(P).m(args) -> re.m(P, args)   (the module functions compile P and call the same method)
+        if isinstance(n.func, ast.Attribute) and n.func.attr in ('findall', 'search', 'match', 'fullmatch', 'split', 'sub', 'subn', 'finditer') \
+                and isinstance(n.func.value, ast.Call) and U(n.func.value.func) == 're.compile' and len(n.func.value.args) == 1 \
+                and not n.func.value.keywords and not n.keywords and len(n.args) <= (2 if n.func.attr in ('sub', 'subn') else 1):
+            # (pos / endpos arguments of the pattern methods have no module-level counterpart: only the plain call is rewritten)
+            pat = n.func.value.args[0]
+            new = ast.Call(func=ast.Attribute(value=ast.Name(id='re', ctx=ast.Load()), attr=n.func.attr, ctx=ast.Load()),
+                           args=[pat] + list(n.args), keywords=[])
+            self.steps.append('S43b ' + U(n)[:50])
+            return _relocate(new, n)
         # S32: f(a, *(x, y)) -> f(a, x, y)   (a starred tuple/list display is just its elements)
         if any(isinstance(a, ast.Starred) and isinstance(a.value, (ast.Tuple, ast.List)) for a in n.args):
             new_args = []
@@ -1189,6 +1227,13 @@ def _const_expr(e):
         return _const_expr(e.left) and _const_expr(e.right)
     if isinstance(e, ast.Tuple):
         return all(_const_expr(x) for x in e.elts)
+    # immutable collections of constants, and compiled patterns (immutable; re.compile(p).m(s) == re.m(p, s), see S43b)
+    if isinstance(e, ast.Call) and isinstance(e.func, ast.Name) and e.func.id in ('frozenset', 'tuple') and len(e.args) == 1 and not e.keywords \
+            and isinstance(e.args[0], (ast.Tuple, ast.List, ast.Set)) and all(_const_expr(x) for x in e.args[0].elts):
+        return True
+    if isinstance(e, ast.Call) and U(e.func) == 're.compile' and len(e.args) == 1 and not e.keywords and isinstance(e.args[0], ast.Constant) \
+            and isinstance(e.args[0].value, str):
+        return True
     return False
 
 
@@ -2006,9 +2051,14 @@ def inline_fresh_temps(rel, module, refnames):
                 k = 0
                 while k < len(blk):
                     stx = blk[k]
+                    ref_stmts_ = ref[q].get('stmts', ())
                     if isinstance(stx, ast.Assign) and len(stx.targets) == 1 and isinstance(stx.targets[0], ast.Tuple) \
-                            and all(isinstance(e, ast.Name) and e.id not in want and e.id not in params for e in stx.targets[0].elts) \
-                            and (_simple_arg(stx.value) or (isinstance(stx.value, ast.Call) and _pure(stx.value) and not _builds_container(stx.value))) \
+                            and all(isinstance(e, ast.Name) and e.id not in params and
+                                    (e.id not in want or any(t_.startswith(e.id + ' = ') for t_ in ref_stmts_)) for e in stx.targets[0].elts) \
+                            and not any(isinstance(x, ast.Name) and x.id in {e.id for e in stx.targets[0].elts} for x in ast.walk(stx.value)) \
+                            and U(stx) not in ref_stmts_ \
+                            and (_simple_arg(stx.value) or (isinstance(stx.value, ast.Subscript) and _pure(stx.value)) or
+                                 (isinstance(stx.value, ast.Call) and _pure(stx.value) and not _builds_container(stx.value))) \
                             and not isinstance(stx.value, ast.Constant) and len(stx.targets[0].elts) <= 4:
                         import copy as _cc2
                         rep = []
@@ -3036,7 +3086,7 @@ def expand_iter_sentinel_loops(rel, module):
                 if not (isinstance(blk, list) and blk and isinstance(blk[0], ast.stmt)):
                     continue
                 for i, st in enumerate(list(blk)):
-                    if not (isinstance(st, ast.For) and not st.orelse and isinstance(st.target, ast.Name) and isinstance(st.iter, ast.Call)
+                    if not (isinstance(st, ast.For) and isinstance(st.target, ast.Name) and isinstance(st.iter, ast.Call)
                             and isinstance(st.iter.func, ast.Name) and st.iter.func.id == 'iter' and len(st.iter.args) == 2
                             and isinstance(st.iter.args[1], ast.Constant) and (U(st.iter), U(st.target)) not in ref_for):
                         continue
@@ -3065,11 +3115,27 @@ def expand_iter_sentinel_loops(rel, module):
                             out.append(x)
                         return out
                     sent = st.iter.args[1]
+                    if sent.value is None and ('%s is None' % v) in r.get('tests', ()) and 'True' in r.get('tests', ()):
+                        # the reference spells this loop `while True: v = F(); if v is None: <exhausted>; ...`: same form, the else
+                        # clause of the for (runs when the iterator is exhausted, skipped by break) is the body of that test
+                        guard = ast.If(test=ast.Compare(left=ast.Name(id=v, ctx=ast.Load()), ops=[ast.Is()], comparators=[ast.Constant(value=None)]),
+                                       body=list(st.orelse) + [ast.Break()], orelse=[])
+                        loop = ast.While(test=ast.Constant(value=True), body=[fetch(), guard] + list(st.body), orelse=[])
+                        ast.copy_location(loop, st)
+                        for x_ in (loop.body[0], guard):
+                            for y_ in ast.walk(x_):
+                                if not hasattr(y_, 'lineno'):
+                                    ast.copy_location(y_, st)
+                        ast.fix_missing_locations(loop)
+                        k = [j for j, x in enumerate(blk) if x is st][0]
+                        blk[k:k + 1] = [loop]
+                        done.setdefault(lname, []).append(v)
+                        continue
                     if sent.value is None:
                         test = ast.Compare(left=ast.Name(id=v, ctx=ast.Load()), ops=[ast.IsNot()], comparators=[ast.Constant(value=None)])
                     else:
                         test = ast.Compare(left=ast.Name(id=v, ctx=ast.Load()), ops=[ast.NotEq()], comparators=[sent])
-                    loop = ast.While(test=test, body=fix_continues(st.body) + [fetch()], orelse=[])
+                    loop = ast.While(test=test, body=fix_continues(st.body) + [fetch()], orelse=list(st.orelse))
                     first = fetch()
                     ast.copy_location(first, st)
                     ast.copy_location(loop, st)
